@@ -93,7 +93,20 @@ def gen(args) -> list:
         if pat is not None and hasattr(pat, "with_template_value") and rnd.random() < 0.3:
             # a pattern with another template value is a successfully created pattern too (fields the text does not give come from it)
             try:
-                pat = pat.with_template_value(textgen.random_value(typ, rnd, cals))
+                tv = textgen.random_value(typ, rnd, cals)
+                if rnd.random() < 0.5:
+                    # templates at the top of their fields: the 31st (29 February), the last nanosecond of the day
+                    from pyoda_time import AnnualDate as _AD, LocalDate as _LD2, LocalTime as _LT2
+
+                    if typ == "AnnualDate":
+                        tv = rnd.choice([_AD(1, 31), _AD(3, 30), _AD(2, 29), _AD(12, 31), _AD(5, 31)])
+                    elif typ == "LocalDate":
+                        tv = rnd.choice([_LD2(2000, 1, 31), _LD2(2024, 2, 29), _LD2(1999, 12, 31), _LD2(2001, 3, 30)])
+                    elif typ == "LocalDateTime":
+                        tv = rnd.choice([_LD2(2000, 1, 31), _LD2(2024, 2, 29), _LD2(2001, 3, 30)]).at(_LT2.from_nanoseconds_since_midnight(86400 * 10**9 - 1))
+                    elif typ == "LocalTime":
+                        tv = rnd.choice([_LT2.from_nanoseconds_since_midnight(86400 * 10**9 - 1), _LT2(12, 0), _LT2(23, 59, 59)])
+                pat = pat.with_template_value(tv)
                 ev["template_changed"] = True
                 ev.pop("tsep", None)            # (the reference parser speaks about the default template only)
             except Exception:  # noqa: BLE001 - not every value is accepted as a template: keep the default one
